@@ -34,7 +34,23 @@ RAW_TEXTS = ['{"action":"get","requestId":"q1"}', '{"action":"fly","requestId":"
              '{"action":"get","requestId":"q12","path":"Vehicle.Speed","authorization":5}',
              '{"action":"set","requestId":"q13","path":"Vehicle.Speed","value":{"a":1}}',
              '{"action":"get","requestId":"q\u0000","path":"x"}']
-W_VISS = {"vmeta": 1.5, "vraw": 1.5, "vget": 5, "vset": 6, "vsub": 2, "vrecv": 3, "vunsub": 0.7, "update": 5, "v2pub": 2, "v2get": 2, "v1get": 1,
+def long_frames():
+    """frames longer than the usual buffer / log limits (1 KiB ... 8 KiB) made of multi-byte characters, in every
+    alignment: whatever the server does with the text of a request or of its own reply (truncate, abbreviate, log)
+    must not depend on where a character happens to end"""
+    out = []
+    for ch in ("\u00e4", "\u20ac", "\U0001F600"):
+        w = len(ch.encode("utf-8"))
+        for shift in range(w):
+            rid = "n" + "x" * shift
+            out.append('{"action":"get","requestId":"%s","path":"%s"}' % (rid, ch * (9000 // w)))
+        out.append('{"action":"set","requestId":"m%d","path":"Vehicle.Speed","value":"%s"}' % (w, ch * (3000 // w)))
+    return out
+
+
+RAW_TEXTS += long_frames()
+LONG_TEXTS = ["\u00e4" * 700, "\u20ac" * 500, "x" + "\u00e4" * 700, "\U0001F600" * 300, "xy" + "\u20ac" * 500, "a" * 1023 + "\u00e4\u00e4"]
+W_VISS = {"vlong": 0.6, "vmeta": 1.5, "vraw": 1.5, "vget": 5, "vset": 6, "vsub": 2, "vrecv": 3, "vunsub": 0.7, "update": 5, "v2pub": 2, "v2get": 2, "v1get": 1,
           "v1set": 1.5, "get": 1, "cleanup": 0.3}
 REASON = {1: "bad_request", 2: "token_expired", 3: "token_invalid", 4: "token_missing", 5: "read_only", 6: "user_forbidden",
           7: "invalid_path", 8: "invalid_subscription_id", 9: "internal_server_error"}
@@ -142,6 +158,19 @@ class VGen(H.Gen):
             L.append([VRECV, r.randrange(self.vsubs), r.choice([1, 2, 50])])
         elif k == "vraw":
             L.append([VRAW] + E.s(r.choice(RAW_TEXTS)))
+        elif k == "vlong":
+            # a long non-ASCII string stored through the core, then read over VISS: the REPLY is the long text
+            strs = [s_ for s_ in self.sigs if s_[2] == 0 and s_[4] == (None, None, None)]
+            if strs:
+                s_ = r.choice(strs)
+                L.append([H.UPDATE, 0, 1, s_[0], 1] + E.val(E.STR, r.choice(LONG_TEXTS)))
+                L.append([H.DUMP])
+                L.append([VGET] + ([3, 0] if self.open_mode else [1, 0]) + E.s(s_[1]))
+                L.append([VSUB] + ([3, 0] if self.open_mode else [1, 0]) + E.s(s_[1]))
+                self.vsubs += 1
+                L.append([H.UPDATE, 0, 1, s_[0], 1] + E.val(E.STR, r.choice(LONG_TEXTS)))
+                L.append([H.DUMP])
+                L.append([VRECV, self.vsubs - 1, 50])
         elif k == "vmeta":
             # static metadata: everything, a branch, a signal, a name that is the beginning of other names, unknown
             leaves = [s_[1] for s_ in self.sigs]
